@@ -159,7 +159,7 @@ func C13() *engine.Check {
 	}
 	nonString := &engine.Sub{
 		Name:  "like-on-non-strings",
-		Rule:  "like with patterns {*, a*, \\*, empty} against every non-string IPLD kind must be false - on the value itself and reached through required / optional field selectors, bare, under and / all / any and behind an index; non-trivial = all",
+		Rule:  "like with patterns {*, a*, \\*, empty} against every non-string IPLD kind must be false - on the value itself and reached through required / optional field selectors, bare, under and / all / any and behind an index; and against lists / maps of strings that each match the pattern, reached through iterator, slice and field selectors; non-trivial = all",
 		Bound: func(string) string { return "3 patterns x 8 non-string values" },
 		Gen: func(tier string, emit func(any) bool) {
 			for _, p := range []string{"*", "a*", `\*`, ""} {
@@ -198,6 +198,18 @@ func C13() *engine.Check {
 				"all .w (like .v?)": policy.All(".w", policy.Like(".v?", cs.Pattern)),
 				"any .w (like .v?)": policy.Any(".w", policy.Like(".v?", cs.Pattern)),
 				"like .w[0].v?":     policy.Like(".w[0].v?", cs.Pattern),
+			}
+			// lists and maps of strings that each match the pattern: a list of matching strings is not a matching string
+			strs := nMap(kv{"to", nList(nStr("ab"), nStr("ac"))}, kv{"m", nMap(kv{"k", nStr("ab")}, kv{"j", nStr("a")})}, kv{"one", nList(nStr("ab"))})
+			for _, sel := range []string{".to[]", ".m[]", ".to", ".to[0:1]", ".one[]", ".one", ".m", ".to[]?", ".to[0:]"} {
+				fp := policy.MustConstruct(policy.Like(sel, cs.Pattern))
+				ctx.Eval(2)
+				ctx.Trans(1)
+				got, _ := fp.Match(strs)
+				pgot, _ := fp.PartialMatch(strs)
+				if got || pgot {
+					ctx.Failf(cs, "glob/non-string-matches", "like %s %q holds (Match=%v PartialMatch=%v) although the selector yields a list / map of strings, not a string", sel, cs.Pattern, got, pgot)
+				}
 			}
 			for fname, cons := range forms {
 				fp := policy.MustConstruct(cons)
